@@ -13,7 +13,7 @@ META = dict(
     "HTTP 4xx, wrong pairing id, bad signature, auth error TLV at M2/M4, garbage, busy}} or trigger {zeroconf update same/changed, ensure (plain, own timeout), "
     "cancel waiter, close, shutdown, drop}; oracle on the network log: <=1 round in progress, gaps >=0.1 s, <=60 s, non-decreasing, not constant, "
     "<= 2|hosts| calls per instant, bounded liveness (another round within 130 s on defaults unless connected/closed/auth-failed), silence after "
-    "shutdown / close / auth failure, waiting callers released within 10 s with the documented errors Further configurations: address sets that overlap an excluded address in either member, a connection reset while the re-subscription of connection_made runs, other read-cutting / block-size / HTTP-spelling environments, and a 2100-round default run (35 h of virtual back-off). Also: a peer FIN on an idle session; peer addresses as the kernel spells them; an immediate retry needs a reason (callers are none); application requests in flight when the connection goes.",
+    "shutdown / close / auth failure, waiting callers released within 10 s with the documented errors Further configurations: address sets that overlap an excluded address in either member, a connection reset while the re-subscription of connection_made runs, other read-cutting / block-size / HTTP-spelling environments, and a 2100-round default run (35 h of virtual back-off). Also: a peer FIN on an idle session; peer addresses as the kernel spells them; an immediate retry needs a reason (callers are none); application requests in flight when the connection goes. Also replies that are damaged rather than refusing (an M2 whose encrypted part does not open, a public key of 31 bytes); an authentication failure is what the accessory SENT, not what the library raised.",
     note="bounded by deviations d and horizon as reported; environment = VirtualLoop + SimNet (conformance-tested)",
     design_ref="DESIGN.md §4 C10",
     rule="state = canonical (timers, connector frame locals incl. interval, flags, exclusions, open conns, waiting callers); transition = one environment choice; execution = run to horizon",
